@@ -683,6 +683,40 @@ func init() {
 					}
 				})
 			}
+			// how a file is reached is not an input of the merge either: the same split with every file behind a symbolic link
+			// (relative, absolute, chained), a hard link, a symlinked directory, ./ and absolute paths, a pattern over links
+			for _, n := range []int{1, 2, 3, 5} {
+				for _, mode := range ReachModes {
+					n, mode := n, mode
+					w.Case(fmt.Sprintf("files-reached/%s/%d", mode, n), func(c *C) {
+						whole := &Cfg{Meta: &Meta{Pkg: P("gen"), Imports: []KV{{"pk", "fx/pk"}}}, Services: []Service{{Name: "s", Constructor: P("pk.New")}}}
+						var files []File
+						for k := 0; k < n; k++ {
+							part := &Cfg{Params: []Param{{"last", k}, {fmt.Sprintf("own%02d", k), k}}, Services: []Service{{Name: "s", Calls: []Call{{Method: fmt.Sprintf("Step%d", k), Args: []any{k}}}, Tags: []Tag{{Name: fmt.Sprintf("t%02d", k), Priority: P(k)}}, Fields: []KV{{fmt.Sprintf("F%d", k), k}}}},
+								Decorators: []Decorator{{Tag: "t00", Decorator: "pk.Dec1", Args: []any{k}}}}
+							if k == 0 {
+								part.Meta = whole.Meta
+								part.Services[0].Constructor = P("pk.New")
+							}
+							files = append(files, File{fmt.Sprintf("part-%02d.yaml", k), part.YAML()})
+							whole.Params = append(whole.Params, Param{fmt.Sprintf("own%02d", k), k})
+							ws := &whole.Services[0]
+							ws.Calls = append(ws.Calls, part.Services[0].Calls...)
+							ws.Tags = append(ws.Tags, part.Services[0].Tags...)
+							ws.Fields = append(ws.Fields, part.Services[0].Fields...)
+							whole.Decorators = append(whole.Decorators, part.Decorators...)
+						}
+						whole.Params = append(whole.Params, Param{"last", n - 1})
+						want := w.Build([]File{{"c.yaml", whole.YAML()}})
+						got := w.BuildReached(files, mode)
+						c.Distinct("all", c.ID)
+						c.Distinct("nontrivial", c.ID)
+						if !want.OK() || !got.OK() || want.Output != got.Output {
+							c.Violation("files-reached-differ:"+mode, fmt.Sprintf("%d files reached as %s: accepted %v / %v; %s\n%s", n, mode, want.OK(), got.OK(), FirstDiff(want.Output, got.Output), strings.Join(ErrorLines(got.Out), "\n")), FilesMap(files), map[string]any{"mode": mode})
+						}
+					})
+				}
+			}
 			// size is not an input of the merge: one file of 1.5 MiB (and of exactly 1 MiB + a few bytes) against the same
 			// parameters in several files
 			for si, total := range []int{1<<20 + 64, 3 << 19, 1 << 16} {
